@@ -1,5 +1,6 @@
 """C01 - Raw-data reader indexing equals NumPy indexing of the concatenated recording."""
 import itertools
+import os
 import shutil
 
 import numpy as np
@@ -62,7 +63,7 @@ def layouts(N, tier, seed):
             for dt in dts:
                 k += 1
                 yield {'backend': 'flat', 'ext': L.FLAT_EXT[k % 4], 'offset': OFFSETS[(k // 3) % 4],
-                       'dtype': dt, 'nc': NCS[(k // 2) % 4], 'parts': parts, 'relative': k % 9 == 4, 'symlink': k % 9 == 7, 'stray': k % 9 == 2,
+                       'dtype': dt, 'nc': NCS[(k // 2) % 4], 'parts': parts, 'relative': k % 9 == 4, 'symlink': k % 9 == 7, 'dotdot': k % 9 == 8, 'stray': k % 9 == 2,
                        'same_name': k % 9 == 5, 'mixed_ext': k % 9 == 6}
         for j, parts in enumerate(L.compositions(n)):
             if j % 3 == n % 3:
@@ -99,6 +100,9 @@ def run_shard(desc, ctx):
     # one read of more than 16 MiB spanning three files
     if sh == 7:
         run_case({'kind': 'big_read'}, ctx)
+    # many short-lived readers in one process: each is dropped before the next one (same number of files, other lengths) is opened
+    if sh in (2, 9, 12):
+        run_case({'kind': 'churn', 'nparts': {2: 2, 9: 3, 12: 4}[sh]}, ctx)
     # recordings made of many files (12 x 3 rows, 40 x 2 rows): every pair of rows as an index list, plus random longer lists
     if sh % 4 in (1, 3):
         parts = [[3] * 12, [2] * 40][sh % 4 // 2] if sh != 5 else [2] * 70        # (70 files: more than any plausible pool of open maps)
@@ -206,13 +210,16 @@ def open_layout(lay, d):
     A = L.unique_cells(n, nc, dt)
     rate = 100.
     be = lay['backend']
+    if be != 'cbin' and (n + len(lay['parts']) + nc) % 5 == 0:
+        # a sampling rate at which the last (or only) file holds exactly one or two 600-second chunks
+        last = lay['parts'][-1]
+        rate = (last // 2 if last % 2 == 0 and n % 2 else last) / 600.
     if be == 'flat':
         ext_ = lay['ext'] if not lay.get('mixed_ext') else [e for e in L.FLAT_EXT if e != '.mda'] if lay['ext'] != '.mda' else lay['ext']
         paths = L.write_flat(d, A, lay['parts'], offset=lay['offset'], ext=ext_, stray=bool(lay.get('stray')) and nc * dt.itemsize > 1,
                              same_name=bool(lay.get('same_name')))
         if lay.get('symlink'):
             # the sorting folder holds links to raw data stored elsewhere
-            import os
             from pathlib import Path
             links = []
             os.makedirs(os.path.join(d, 'links'), exist_ok=True)
@@ -221,11 +228,20 @@ def open_layout(lay, d):
                 os.symlink(p, lk)
                 links.append(lk)
             paths = links
+        if lay.get('dotdot'):
+            # files named through <symlinked folder>/.. : the system resolves that to the parent of the link TARGET, where the
+            # recording is; a decoy with the same names lies next to the link itself
+            from pathlib import Path
+            os.makedirs(os.path.join(d, 'sub'), exist_ok=True)
+            os.makedirs(os.path.join(d, 'work'), exist_ok=True)
+            os.symlink(os.path.join(d, 'sub'), os.path.join(d, 'work', 'lnk'))
+            if not lay.get('same_name'):
+                L.write_flat(os.path.join(d, 'work'), A[::-1].copy(), lay['parts'], offset=lay['offset'], ext=ext_)
+            paths = [Path(d) / 'work' / 'lnk' / '..' / p.relative_to(d) for p in paths]
         arg = paths if (len(paths) > 1 or n % 2) else paths[0]
         if lay.get('relative'):
             # environment: files named relative to the working directory, which changes before the first read;
             # a decoy with the same names (other bytes) sits in the new working directory
-            import os
             from pathlib import Path
             decoy = os.path.join(d, 'elsewhere')
             os.makedirs(decoy, exist_ok=True)
@@ -275,10 +291,43 @@ def _big_read(ctx):
         shutil.rmtree(d, ignore_errors=True)
 
 
+def _churn(case, ctx):
+    import gc
+    from phylib.io.traces import get_ephys_reader
+    k = case['nparts']
+    comps = {2: [(2, 6), (6, 2), (1, 7), (5, 3), (3, 5), (7, 1)], 3: [(2, 3, 4), (4, 3, 2), (1, 1, 7), (6, 2, 1), (3, 3, 3)],
+             4: [(1, 2, 3, 4), (4, 3, 2, 1), (2, 2, 2, 4), (5, 1, 1, 3)]}[k]
+    d = scratch_dir('c01c_')
+    try:
+        for rnd in range(60):
+            parts = list(comps[rnd % len(comps)])
+            n = sum(parts)
+            A = (np.arange(n * 3, dtype=np.int16).reshape(n, 3) + 100 * rnd).astype(np.int16)
+            os.makedirs(os.path.join(d, 'r%02d' % rnd))
+            paths = L.write_flat(os.path.join(d, 'r%02d' % rnd), A, parts, ext='.bin')
+            r = call(get_ephys_reader, paths, sample_rate=1000., dtype=A.dtype, n_channels=3)
+            ctx.count(1, key=hkey('churn', k, rnd), nontrivial=True, cell=('flat', 'int16', 'churn%d' % k))
+            if not r.ok:
+                ctx.violation('open_raised', case, 'get_ephys_reader raised %r' % r.exc, {'backend': 'flat'}, tb=r.tb)
+                return
+            for it in ([1, 3, 4, 6], list(range(n)), np.array([0, n - 1]), [parts[0] - 1, parts[0]], slice(1, n - 1)):
+                rr = call(lambda: r.value[it])
+                if not rr.ok or same(rr.value, A[it]):
+                    ctx.violation('read_mismatch' if rr.ok else 'read_raised', dict(case, round=rnd, parts=parts, item=repr(it)),
+                                  'reader number %d opened in this process (parts %r), reader[%r]: %s' % (
+                                      rnd, parts, it, rr.exc if not rr.ok else same(rr.value, A[it])), {'backend': 'flat', 'churn': True}, tb=rr.tb)
+                    return
+            del r, rr
+            gc.collect()
+    finally:
+        shutil.rmtree(d, ignore_errors=True)
+
+
 def run_case(case, ctx):
-    import os
     if case.get('kind') == 'big_read':
         return _big_read(ctx)
+    if case.get('kind') == 'churn':
+        return _churn(case, ctx)
     d = scratch_dir('c01_')
     cwd0 = os.getcwd()
     try:
